@@ -534,14 +534,21 @@ func (p *Parser) parseProviderType(pkg *packages.Package, providerType types.Typ
 			return nil, fmt.Errorf("parse internal provider type: %w", err)
 		}
 
+		bound := false
 		for i, provide := range result.Provides {
 			for _, providedType := range provide {
 				if types.Implements(providedType, intrfcType) {
 					// If the provided type is the interface type, we can skip it
 					result.Provides[i] = append(result.Provides[i], interfaceType)
+					bound = true
 					break
 				}
 			}
+		}
+		if !bound && !result.IsStruct {
+			// e.g. the provider returns a value and the methods have pointer receivers: the binding
+			// would silently supply nothing and the interface would become an injector parameter
+			return nil, fmt.Errorf("no result of the bound provider implements %s", interfaceType)
 		}
 
 		// Propagate struct info through bind wrapper
